@@ -591,6 +591,9 @@ func ValueFor(col, sqlText string, row Row, idx int, ncols int, res *Result) dri
 		return row.Value
 	case "val":
 		if strings.Contains(sqlText, "time_series_gin") || strings.Contains(sqlText, "tempo_traces_kv") || strings.Contains(sqlText, "tempo_traces_attrs_gin") {
+			if res.CtrlBytes {
+				return fmt.Sprintf("v%d%s", idx, []string{"", " \"q\"", "\\", "\x1b[0m", "\x00", "é\u2028", "<&>"}[idx%7])
+			}
 			return fmt.Sprintf("v%d", idx)
 		}
 		return row.Value
